@@ -121,6 +121,11 @@ class G:
             s = "0o%o" % v
         if r.random() < 0.1 and v < 2**63:
             s = "-" + s
+        k2 = r.random()
+        if k2 < 0.02:
+            return "-9223372036854775808"
+        if k2 < 0.03:
+            return "-0x8000000000000000"
         return s
 
     def small_int(self):
@@ -129,7 +134,7 @@ class G:
     def str_lit(self):
         r = self.r
         words = ["", "a", "foo", "bar", "abc", "main", "int", "x y", "%%", "\\n", "\\t",
-                 "\\x41", "\\101", "q\\\"q", "zzz", "foo.c", "a.*", "^f", "o$", "[a-c]+"]
+                 "\\x41", "\\101", "q\\\"q", "zzz", "foo.c", "a.*", "^f", "o$", "[a-c]+", "(", "[a", "*", "a{2", "\\\\"]
         s = r.choice(words)
         if r.random() < 0.2:
             s += r.choice(words)
@@ -602,8 +607,30 @@ class G:
             parts.append(t)
         return self.join(parts), stack
 
+    def deep_prefix(self, stack):
+        """Five or more slots of mixed types, then pops: the stack profile
+        (types near TOS, a fixed-width window) has to be refilled from below."""
+        r = self.r
+        parts = []
+        n = r.randint(5, 8)
+        for _ in range(n):
+            t = r.choice("ISIQ")
+            parts.append(self.leaf(t) if t != "Q" else "[]")
+            stack = stack + [{"I": "I", "S": "S", "Q": "Q"}[t]]
+        k = r.randint(2, n - 1)
+        for _ in range(k):
+            w = r.choice(["drop", "drop", "drop", "add", "swap drop"])
+            parts.append(w)
+            if len(stack) >= 1:
+                stack = stack[:-1]
+        return self.join(parts), stack
+
     def program(self, in_types):
         stack = list(in_types)
+        if self.r.random() < 0.06:
+            pre, stack = self.deep_prefix(stack)
+            text, stack = self.seq(stack, 0, self.r.randint(1, 3))
+            return self.join([pre, text]), stack
         n = self.r.randint(2, 8)
         text, stack = self.seq(stack, 0, n)
         # Make sure there is something on the stack to look at.
@@ -623,6 +650,13 @@ def gen_program(rng, in_types, dwarf=False, bombs=True, ticks=True):
 # Hand-written programs that put every stateful construct under a multi-stack
 # stream; the generator mixes these in so that reach does not depend on luck.
 SEED_PROGRAMS_CORE = [
+    "?match", "!match", "(|A B| A B ?match)", "(|A B| A (=~ B))", "?find", "?starts",
+    "\"abc\" 1 2 3 4 drop drop drop drop 5 add", "\"abc\" 1 2 3 4 add add add add", "1 \"a\" [] 2 \"b\" 3 drop drop drop length",
+    "[] \"x\" 1 2 3 4 5 drop drop drop drop add", "1 2 3 4 5 6 7 drop drop drop drop drop add",
+    "-9223372036854775808 -1 mod", "-9223372036854775808 -1 div", "-9223372036854775808 -1 mul", "0x8000000000000000 bin",
+    "0xffffffffffffffff \"%b\"", "-9223372036854775808 bin", "-9223372036854775808 hex", "-1 oct", "0 bin",
+    "(1, 1 2, 3)", "(1 2, 3, 4 5)", "[1, 2, 3] dup add", "[1] (|B| [] B add B)", "(1, 2) [] [3] add",
+    "if 1 then (1 2 add) else 3", "(1, 2) if (== 1) then (\"a\" \"b\" add length) else 0",
     "(1, 2) {1 add}", "{1 add}", "let X := 5; {X add}", "(1, 2) (|A| {A 10 mul})", "[{1}, {2}] elem",
     "1 2 let A B := ; A B add", "let A B := ; A B add", "(1, 2) 3 let A B := ; [A, B]",
     "let A B := 1 2; B A", "(1, 2) let A B := dup dup 1 add; A B mul",
@@ -681,14 +715,17 @@ DW_DIE_WORDS = ["name", "high", "low", "address", "label", "offset", "child", "p
                 "attribute value", "attribute label", "attribute form", "attribute address",
                 "?haschildren", "?root", "!root", "?TAG_subprogram", "?TAG_variable", "?AT_name", "!AT_name",
                 "?AT_location", "@AT_location elem", "@AT_location elem label", "@AT_location elem value",
-                "@AT_location address", "abbrev attribute", "abbrev code", "abbrev label"]
+                "@AT_location address", "abbrev attribute", "abbrev code", "abbrev label",
+                "@AT_location relem", "@AT_location relem label", "@AT_location elem offset", "\"%s\"", "\"%s\"",
+                "?root", "root ?root", "parent ?root", "[child] length", "[attribute] length", "dup root (== )" if False else "root"]
 
 
 def gen_dw_simple(rng):
     """Short programs made of plain DWARF words: cheap, and between them they
     touch every producer and every libdw accessor."""
     head = rng.choice(["entry", "entry", "entry", "unit root", "unit entry", "raw entry", "entry ?root",
-                       "entry child", "unit root child"])
+                       "entry child", "unit root child", "unit ?1 root", "unit !0 entry", "unit ?1 entry",
+                       "unit", "unit ?1", "entry ?3", "entry !0 !1", "raw", "raw unit", "cooked unit", "unit relem" if False else "unit"])
     n = rng.choice([1, 1, 2, 2, 3])
     words = [rng.choice(DW_DIE_WORDS) for _ in range(n)]
     k = rng.random()
@@ -702,6 +739,11 @@ def gen_dw_simple(rng):
 
 
 SEED_PROGRAMS_DW = [
+    "unit \"%s\"", "entry \"%s\"", "[unit, entry] elem \"%s\"", "entry attribute \"%s\"", "unit ?1 root ?root",
+    "unit ?1 entry ?root", "entry ?root", "entry !root root ?root", "raw", "cooked", "raw unit", "unit", "[unit] length",
+    "[unit entry] length", "entry @AT_location relem", "entry @AT_location [relem] length", "entry @AT_location elem label",
+    "entry ?(@AT_location relem) offset", "entry root \"%s\"", "entry parent \"%s\"", "entry ?TAG_imported_unit",
+    "entry (|E| E parent E root)",
     "entry", "unit", "unit root", "entry ?root child", "entry parent",
     "entry attribute", "entry attribute value", "entry @AT_name", "entry name",
     "entry ?TAG_subprogram child", "entry (offset == 0x2d)", "entry [child] length",
@@ -828,7 +870,8 @@ def gen_hostile(rng):
         digs = rng.choice(["", "0", "1", "7", "8", "9", "f", "F", "g", "z", "_", "1" * 64, "1" * 65,
                            "f" * 16, "f" * 17, "7" * 22, "1" + "7" * 21, "2" + "0" * 21,
                            "18446744073709551615", "18446744073709551616", "9223372036854775808",
-                           "9" * 40, "1_000", "1.5", "1e5"])
+                           "9" * 40, "1_000", "1.5", "1e5", "0" * 70 + "1", "0" * 100 + "7", "0" * 200 + "1",
+                           "0" * 500 + "1", "0" * 64 + "f", "0" * 72, "0" * 150 + "9" * 30])
         q = rng.choice(["", "?", "!"]) if pref in ("", "0x", "0") else ""
         return rng.choice(["", "1 ", "( "]) + q + pref + digs + rng.choice(["", " ", ")", " add"])
     # raw random bytes
